@@ -757,14 +757,17 @@ def signature(case, viol, prop):
 def evidence_info(prop):
     return {
         'rule': 'each run = one scenario (dir archive in every encoding, sqlite file table, or single file; 0-5 prior '
-                'entries; 2-3 clients with roles writer/overwriter/deleter/reader/opener, 1-3 operations each, every '
-                'written value unique) executed under ONE seeded schedule: the scheduler picks which client performs its '
+                'entries; 2-3 clients with roles writer (set / update / cache.dump / setdefault of own new keys) / overwriter / '
+                'deleter / discarder (deletes an absent key, then reads) / reader (get, get-with-default, in, len, keys, '
+                'iter, items, values, cache.load) / opener, 1-3 operations each, every written value unique; clients that '
+                'have finished stay alive and idle until the run ends) executed under ONE seeded schedule: the scheduler picks which client performs its '
                 'next intercepted file-system/SQL call (sticky bursts, context switches biased to right after '
                 'unlink/rmdir/rename/DML). Invoke/return events are stamped with the scheduler\'s global sequence number; '
                 'the history is checked: no reader/writer operation fails, every value read was stored for that key by '
                 'an operation overlapping or preceding the read, no never-stored key is reported, keys stored throughout '
-                'are not missed, len() is in the possible range, and a fresh handle afterwards sees every acknowledged '
-                'write. total_steps = scheduler decisions. distinct = distinct (client, event kind) interleavings; '
+                'are not missed, len() is in the possible range, a single-file reader sees one complete dictionary that '
+                'existed, a sqlite busy timeout happens only while another client has an operation in flight, and a fresh '
+                'handle afterwards sees every acknowledged write. total_steps = scheduler decisions. distinct = distinct (client, event kind) interleavings; '
                 'non-trivial = at least one context switch landed inside another client\'s operation',
         'components': {
             'real': ['klepto dir/file/sqlite archives and cache.load(), dill, pox, json, importlib, sqlite3 C library with '
